@@ -145,9 +145,35 @@ package deb
 //@     invariant [C08] empty-iff-no-lines: (len(confs) == 0) == (confText(info.Contents, iter) == "")
 //@     invariant [C08] index-in-range: 0 <= iter && iter <= len(info.Contents)
 //
+//@ spec func triggerLines(directive string, names []string, n int) string {
+//@     return foldStr(n, func(i int) string { return directive + " " + names[i] + "\n" })
+//@ }
+//
+//@ spec func triggersBefore(info *nfpm.Info, directive string) string {
+//@     t := info.Deb.Triggers
+//@     r := ""
+//@     if directive == "interest" { return r }
+//@     r += triggerLines("interest", t.Interest, len(t.Interest))
+//@     if directive == "interest-await" { return r }
+//@     r += triggerLines("interest-await", t.InterestAwait, len(t.InterestAwait))
+//@     if directive == "interest-noawait" { return r }
+//@     r += triggerLines("interest-noawait", t.InterestNoAwait, len(t.InterestNoAwait))
+//@     if directive == "activate" { return r }
+//@     r += triggerLines("activate", t.Activate, len(t.Activate))
+//@     if directive == "activate-await" { return r }
+//@     r += triggerLines("activate-await", t.ActivateAwait, len(t.ActivateAwait))
+//@     if directive == "activate-noawait" { return r }
+//@     r += triggerLines("activate-noawait", t.ActivateNoAwait, len(t.ActivateNoAwait))
+//@     return r
+//@ }
+//
 //@ inline func createTriggers(info *nfpm.Info) (result []byte)
-//@   loop 1
+//@   requires [C02] info != nil
+//@   requires !ghostFlag("failed")
+//@   ensures [C02] every-trigger-under-its-directive-in-order: string(result) == triggersBefore(info, "")
+//@   loop 1 (iter int, buffer bytes.Buffer, te=triggerEntry struct{Directive string; TriggerNames *[]string})
 //@     invariant [C06] no-failure-so-far: !ghostFlag("failed")
+//@     invariant [C02] lines-so-far: inlined() || (te.TriggerNames != nil && 0 <= iter && iter <= len(*te.TriggerNames) && buffer.String() == triggersBefore(info, te.Directive) + triggerLines(te.Directive, *te.TriggerNames, iter))
 //
 //@ spec func opt(sep, s string) string {
 //@     if s == "" { return "" }
